@@ -8,6 +8,7 @@ import attr
 
 import asn1crypto
 
+from cryptodatahub.common.exception import InvalidValue
 from cryptodatahub.common.key import PublicKeyX509Base
 from cryptodatahub.common.stores import CertificateTransparencyLog, CertificateTransparencyLogParamsBase
 
@@ -73,6 +74,8 @@ class SignedCertificateTimestamp(ParsableBase, Serializable):
         body_parser.parse_numeric('version', 1, CtVersion)
         body_parser.parse_raw('log', 32)
         body_parser.parse_timestamp('timestamp', milliseconds=True)
+        if body_parser['timestamp'] is None:  # the all-ones value is no instant, a timestamp has no "forever"
+            raise InvalidValue(body_parser['timestamp'], cls, 'timestamp')
         body_parser.parse_parsable('extensions', CtExtensions)
         body_parser.parse_parsable('signature_algorithm', TlsSignatureAndHashAlgorithmFactory)
         body_parser.parse_parsable('signature', CtSignature)
